@@ -85,6 +85,15 @@ def reserveRehash (t : Raw κ ν) (additional : Nat) : Out (Raw κ ν) :=
 def reserve (t : Raw κ ν) (additional : Nat) : Out (Raw κ ν) :=
   if t.free < additional then reserveRehash t additional else .ok t
 
+/-- `reserve` including the one failure the allocator can raise as an ordinary panic:
+`Vec::with_capacity(new_capacity)` panics with "capacity overflow" when `new_capacity * size_of::<Slot>()`
+exceeds `isize::MAX`; nothing has been touched at that point.  (Requests below that limit but beyond
+the machine's memory abort the process instead of unwinding and are outside every history; requests
+with `len + additional ≥ 2^63` overflow `usize` arithmetic and are not generated.) -/
+def reserveChecked (slotBytes : Nat) (t : Raw κ ν) (additional : Nat) : Out (Raw κ ν) :=
+  if t.free < additional ∧ nextPow2 (t.len + additional) * slotBytes > 2 ^ 63 - 1 then .panic
+  else reserve t additional
+
 /-- `clear`: resets statuses up to the last occupied slot only; `free` is left as it is -/
 def clearLoop : List Nat → Raw κ ν → Out (Raw κ ν)
   | [], _ => .panic      -- `unreachable!()`
